@@ -10,15 +10,15 @@ CHECKS = {
             "physics doubles replace GHE.simulate / g-function computation in B1; real physics is sampled, not exhausted; oracle ties are not judged", "5/C01"),
     "C02": ("model_checking", "Search.tla invariants + liveness (TLC) + spec->code replay (B1)",
             "Height window, borehole cap, unmet policy, exception class and termination are invariants / a liveness property of the search model, exhaustive over caps, continue flag and oracles, transferred to the code by replaying every behaviour.",
-            "same doubles as C01; non-degenerate input means no exact-zero excess, cap >= 2, first candidate has one borehole", "5/C02"),
-    "C05": ("model_checking", "Search.tla invariants (TLC) + spec->code replay (B1)",
+            "same doubles as C01; non-degenerate input means no exact-zero excess, cap >= 2, first candidate has one borehole; an empty candidate domain (spacing window without a whole row count) is valid input and must end in ValueError (F23, repaired)", "5/C02"),
+    "C05": ("model_checking", "Search.tla invariants (TLC) + TLAPS proof of the bisection loop for arbitrary list length (BisectProof.tla) bound by a TLC refinement check + spec->code replay (B1)",
             "Predecessor-fails, first-feasible-under-monotone, no-less-drilling-evaluated and root-unless-clamped are invariants over all list lengths up to 64 and all lazily chosen sign patterns; replayed into the real classes including real solve_root / brentq.",
-            "oracle ties excluded (NoTies); drilling comparison uses field-specific root heights to avoid float ties", "5/C05"),
+            "oracle ties excluded (NoTies); drilling comparison uses field-specific root heights to avoid float ties; the TLAPS proof covers the loop's natural exit, not max_iter; 2D configurations assume what Domains.tla checks of real bi-rectangle lists (first field single, list 0 long enough)", "5/C05"),
     "C12": ("model_checking", "Search.tla invariants (TLC) + spec->code replay (B1) + output-file trace validation (B2)",
             "What hp_eft describes (lastSim) and what is returned (field, height) are state variables of the model; ReportedIsLastSim is checked in every terminal state for all four solve_root outcomes and all searches, then on the real objects.",
             "hp_eft of the double is what simulate() last produced; summary/CSV consistency is judged on real runs (B2)", "5/C12"),
     "C20": ("model_checking", "Search.tla flow bookkeeping + Wiring.tla forwarding table (TLC) + spec->code replay (B1) + paired real runs (B2)",
-            "Every evaluation event of the model carries the system flow and per-borehole mass flow implied by the flow type and the field's count; the replay compares them with what the real retrieve_flow hands to GHE and to the g-function call for every search class.",
+            "Every evaluation event of the model carries the system flow and per-borehole mass flow implied by the flow type and the field's count; the replay compares them with what the real retrieve_flow hands to GHE and to the g-function call for every search class. Wiring.tla is a history machine (set_design called again with another flow type / rate, setters replacing input objects): 2088 histories are replayed on the real manager and the search must be constructed from the snapshot of the last set_design.",
             "fluid density is a constant of the double in B1; real fluids in B2", "5/C20"),
     "C06": ("model_checking", "HybridLoads.tla model checking + replay into process_month_loads / HybridLoad constructor (B1 levels A, B)",
             "Per-month energy conservation is a structural invariant of the segment machine (segments tile the month, every due pulse lasts its duration, average time equals the divisor of the monthly rate); TLC enumerates peak presence x peak-day order x first/middle/last day x duration classes x retention flags x horizons and the real code is replayed on every case.",
@@ -31,16 +31,16 @@ CHECKS = {
             "leap and non-leap load years; real hourly profiles are sampled", "5/C08"),
     "C03": ("model_checking", "Domains.tla symbolic generators (TLC) + list-for-list replay of the real generators + random real-valued lots",
             "Each generator is transcribed as an exact-rational loop; TLC checks extents, spacing and ordering of every candidate on every admissible integer lot of the configuration, and the real generators are compared candidate by candidate (count, extents from real coordinates, minimum pair distance measured with a KD-tree).",
-            "lots where a float ceil/floor/ratio comparison differs from exact arithmetic are judged by the property predicates only (either rounding is legal); bi-rectangle row-count rounding (F15) was repaired in /repo (a13b64d)", "5/C03"),
+            "lots where a float ceil/floor/ratio comparison differs from exact arithmetic are judged by the property predicates only (either rounding is legal); lots whose spacing window admits no whole row count are included (no candidate may appear); bi-rectangle row-count rounding (F15) was repaired in /repo (a13b64d)", "5/C03"),
     "C04": ("model_checking", "Polygon.tla land-constraint filter (TLC) + replay of remove_cutout + end-to-end polygonal_land_constraint on random outlines",
             "The kept set of all 49 half-lattice points is computed in the model for every simple lattice polygon x each no-go polygon and compared with remove_cutout; the end-to-end generator is judged with the exact rational classifier bound to the specification.",
-            "lattice scaled by 5 m so no off-edge lattice point falls in the 0.01 tolerance band; random outlines are star-shaped simple polygons", "5/C04"),
+            "lattice scaled by 5 m so no off-edge lattice point falls in the 0.01 tolerance band; random outlines are star-shaped simple polygons, one or two outlines in either list order, no-go zones inside or overhanging; the grid extent is computed by the harness from all vertices", "5/C04"),
     "C16": ("model_checking", "Polygon.tla exhaustive classification (TLC, two independent rays) + replay of point_polygon_check on all rotations/orientations",
             "Exhaustive over all simple polygons with 3..5 (thorough: 6) vertices on the 4x4 lattice and all 49 half-lattice points: the crossing-number classification of the model (guarded by an independent vertical-ray classification) is compared with the real function for every vertex rotation and both orientations.",
             "random real-valued polygons are judged only outside the tolerance band", "5/C16"),
     "C13": ("model_checking", "Manager.tla / GheObject.tla history generation (TLC) + execution of every history on the real classes with bit-for-bit comparison",
             "Object identity, snapshot capture at set_design and the cells that survive between simulate/size calls are modelled as state; TLC generates API histories (exhaustively at object level, by simulation at manager level) and every history is executed on the real code; results must be bit-identical inside each class of equal physical snapshot and equal to a fresh object's.",
-            "manager histories are TLC-simulated (random) rather than exhaustive; tiny configurations (4-20 boreholes, 12 months) plus one shared-load-list scenario (24-month hourly run on one object, 12-month on another)", "5/C13"),
+            "manager histories: every continuation of <= 4 (thorough 5) calls after a configured manager exhaustively, longer ones TLC-simulated; Wiring.tla histories as in C20; every other object history uses a stored g-function of another borehole radius; tiny configurations (4-20 boreholes, 12 months) plus one shared-load-list scenario (24-month hourly run on one object, 12-month on another)", "5/C13"),
     "C17": ("model_checking", "InputFile.tla over the configuration product with schema facts regenerated from the repository (TLC) + write/validate/load/write replay",
             "WrittenIsValid, RoundTrip and WriteIsIdempotent are checked by TLC for all 1680 configurations against the repository's own schema requirements; every configuration (quick: a covering sample) is executed through the real setters, writer, validator and command-line loader and the two files compared byte for byte.",
             "numeric values are random in range per seed; schema facts used by the model: required keys and enumerations", "5/C17"),
@@ -49,7 +49,7 @@ CHECKS = {
             "python -m ghedesigner.manager is taken as the console script; corruption base is one near-square single-U file", "5/C18"),
     "C19": ("model_checking", "Calendar.tla exhaustive (TLC) + replay of the real static methods + output-table trace of real designs",
             "Time labels are proved equal to the reference calendar for all 8760 hours and hours_to_month exact / monotone / continuous on a quarter-hour grid (3 years quick, 30 years thorough); the real functions are replayed on the same domains; real design outputs are compared with inputs, selected field and simulated curve.",
-            "table clauses are judged on a few real designs (2 quick, 9 thorough)", "5/C19"),
+            "table clauses are judged on a few real designs (2 quick, 9 thorough) and one field object simulated HOURLY over two years", "5/C19"),
     "C09": ("model_checking", "Superposition.tla small-domain theorems (TLC) + replay of _simulate_detailed + spec-bound reference on real GHE objects",
             "The documented formula is an operator over integers; TLC checks zero-load, linearity, additivity and sign on every load/time sequence within the bounds and prints exact values; the real _simulate_detailed is replayed on every case, and real simulate() runs (both time-step methods) are judged step by step by a transliteration that is itself checked against the same TLC output.",
             "real-valued runs are sampled (5 quick / 16 thorough objects incl. a 24-month hourly run); tolerance 1e-9 relative", "5/C09"),
@@ -61,7 +61,7 @@ CHECKS = {
             "geometry clauses are sampled (exploration); translation is judged only when per-rotation counts agree (borderline row ends are fp-dependent); exact-divisible lot sizes accept either rounding; a row through two no-go vertices is the listed finding F20", "5/C14"),
     "C15": ("other", "EquivPipe.tla (thin model, TLC) + batch trace validation of recorded to_single() conversions (EquivTrace.tla)",
             "Trace invariants over a thin model: each recorded conversion is a 5-event trace with measured deviations; TLC validates all traces in one run and returns a verdict per trace. Volumes and the bracketed pipe-conductivity solve are judged; the grout solve never brackets on this tree (listed finding F11).",
-            "random geometries; R_b* evaluated by pygfunction for both exchangers; the convective+pipe target is the tool's own definition", "5/C15"),
+            "random geometries incl. heavy-wall pipes; R_b* evaluated by pygfunction for both exchangers; the convective+pipe target is the tool's documented definition, evaluated by the harness on the raw inputs (the double-U convective 'area' n pi (2 r_in)^2 is taken as given, observation F24)", "5/C15"),
 }
 
 NOT_APPLICABLE = [
